@@ -560,16 +560,24 @@ func (c *bufComp) Run(h *hlib.History) ([]hlib.Mon, bool) {
 		rec := invocation{method: req.Method, url: req.URL.String(), hdr: req.Header.Clone(), cl: req.ContentLength,
 			te: append([]string{}, req.TransferEncoding...)}
 		hijacked := false
+		// the usual idiom: the map is taken once and kept; on odd attempts it is asked for afresh every time
+		kept := w.Header()
+		respHeader := func() http.Header {
+			if (len(st.invs)+int(st.x.url))%2 == 0 {
+				return kept
+			}
+			return w.Header()
+		}
 		for _, e := range script {
 			switch e.t {
 			case 0:
 				switch {
 				case e.a == 10:
-					w.Header().Set("Content-Length", strconv.FormatInt(e.b, 10))
+					respHeader().Set("Content-Length", strconv.FormatInt(e.b, 10))
 				case e.a == 11:
-					w.Header().Set("Grpc-Status", strconv.FormatInt(e.b, 10))
+					respHeader().Set("Grpc-Status", strconv.FormatInt(e.b, 10))
 				default:
-					w.Header().Set("X-Resp-"+strconv.FormatInt(e.a, 10), "v"+strconv.FormatInt(e.b, 10))
+					respHeader().Set("X-Resp-"+strconv.FormatInt(e.a, 10), "v"+strconv.FormatInt(e.b, 10))
 				}
 			case 1:
 				w.WriteHeader(int(e.a))
@@ -685,6 +693,19 @@ func (c *bufComp) Run(h *hlib.History) ([]hlib.Mon, bool) {
 			req.Header["X-Token"] = []string{"upper"}
 			req.Header["x-token"] = []string{"lower"}
 			req.Header["X-Empty"] = []string{}
+		}
+		if st.x.url%3 == 1 {
+			// header lines that mean something to a server or a proxy, none of them to the buffer: an expectation (already
+			// answered by the server), an upgrade offer, conditional and range headers, codings
+			req.Header.Set("Expect", "100-continue")
+			req.Header.Set("Connection", "Upgrade")
+			req.Header.Set("Upgrade", "websocket")
+			req.Header.Set("Te", "trailers")
+			req.Header.Set("Range", "bytes=0-99")
+			req.Header.Set("If-None-Match", `"abc"`)
+			req.Header.Set("Accept-Encoding", "gzip, br")
+			req.Header.Set("Content-Encoding", "identity")
+			hlib.Count("requests_with_expect_upgrade_range_headers", 1)
 		}
 		if st.x.chunked == 1 && st.x.url%3 == 0 {
 			req.TransferEncoding = nil // as handed on by an HTTP/2 front: unknown length, no transfer coding
@@ -1096,6 +1117,11 @@ func genScript(rng *rand.Rand, cfg []int64, bodyLen int64, final bool, targeted 
 	}
 	if code != 0 && !before {
 		s = append(s, ev{1, code, 0})
+	}
+	if rng.Intn(4) == 0 {
+		// a header completed after the status was chosen and the body written (a digest, a trailer-like field): behind a
+		// buffer nothing has been sent yet, so it is part of the attempt's header set like any other
+		s = append(s, ev{0, 3 + int64(rng.Intn(2)), int64(rng.Intn(5))})
 	}
 	if rng.Intn(3) == 0 {
 		s = append(s, ev{3, -1, 0})
